@@ -282,10 +282,10 @@ Fixpoint read_deltas (c : ctxt) (fls : list Z) (short same : Z) : outcome (list 
   | fl :: r => '(d, c1) <- read_delta c fl short same ;; '(ds, c2) <- read_deltas c1 r short same ;; Ok (d :: ds, c2)
   end.
 
-(* prev + delta in default-mode i16 arithmetic *)
+(* prev + delta: checked_add(..).ok_or(ParseError::LimitExceeded) since fix a464744 (the mode
+   parameter is kept for the callers' signatures) *)
 Definition add_i16 (m : mode) (a b : Z) : outcome Z :=
-  if i16_ok (a + b) then Ok (a + b)
-  else match m with Debug => Panic | Release => Ok (to_signed 16 (a + b)) end.
+  if i16_ok (a + b) then Ok (a + b) else Err LimitExceeded.
 
 (* the y loop of read_dep: read the y delta of a point, then resolve both deltas against the
    previous point (x first) *)
